@@ -469,7 +469,7 @@ ASSUMPTIONS = [
     'hooks: the responder has the argument names (req, resp, id, name); the hook is given one extra positional and one extra keyword argument',
 ]
 NOT_DECIDED = [
-    'class-level use of the before / after decorators (hooks.before(...)(ResourceClass) wraps every on_* method found by getmembers): only the per-responder wrappers are under contract',
+    'class-level use of the before / after decorators: decided for three class shapes (own / inherited / two-level with override), not for arbitrary metaclasses, descriptors or slots',
 ]
 TRUSTED = ['ghost Monitor (specification automaton) and stubs Callee/GetResponder/HandleException/Resp/Req in contracts/C03_middleware.py',
            'spec function RR(m) = response methods of components 0..m-1, highest index first; its defining equation is assumed at the loop index']
@@ -772,6 +772,122 @@ for _w in ('before', 'after'):
     for _c in (False, True):
         harness(PROP, HOOKS + ':_wrap_with_' + _w, name='hook_%s[%s]' % (_w, 'async' if _c else 'sync'), setup=_hooks_setup(_c))(_hook_harness(_w, _c))
 
+# class-level use: @falcon.before(action) / @falcon.after(action) on a resource CLASS wraps every responder the class HAS -- its own and the
+# inherited ones, plain and suffixed -- with the per-responder wrapper (contract above), and nothing else.
+
+
+def _class_hooks_setup(which):
+    def setup(reg, ex):
+        def wrap(I, responder, action, args, kwargs):
+            return ('wrapped', which, responder, action, args, kwargs)
+
+        reg.stubs[HOOKS + ':_wrap_with_' + which] = wrap
+
+    return setup
+
+
+def _mk_resource_classes(shape):
+    """Real classes (the decorator works on the class object itself).  shape: 0 = everything defined on the class, 1 = responders inherited
+    from a base, 2 = two levels, the middle one overriding one responder."""
+
+    class Root:
+        def on_get(self, req, resp):
+            pass
+
+        def on_get_item(self, req, resp, id):
+            pass
+
+        def on_propfind(self, req, resp):  # a WebDAV method
+            pass
+
+        def helper(self):
+            pass
+
+        def on_getaway(self, req, resp):  # looks similar, is not a responder name
+            pass
+
+        on_patch = True  # not callable
+        on_put = None
+
+    if shape == 0:
+        cls = Root
+    elif shape == 1:
+        class Leaf(Root):
+            def on_post(self, req, resp):
+                pass
+
+        cls = Leaf
+    else:
+        class Mid(Root):
+            def on_get(self, req, resp):
+                pass
+
+        class Leaf2(Mid):
+            def on_delete_item(self, req, resp, id):
+                pass
+
+        cls = Leaf2
+    return cls
+
+
+def _class_hook_harness(which):
+    def h(v):
+        import inspect
+        import re
+
+        shape = v.choose(3, 'class-shape')
+        cls = _mk_resource_classes(shape)
+        bases_before = [dict(vars(b)) for b in cls.__mro__[1:-1]]
+        before = {n: getattr(cls, n) for n in dir(cls) if not n.startswith('__')}
+        action, a1, k1 = object(), object(), object()
+        out = v.call(action, a1, extra=k1)
+        v.check('decorator-built', out.exc is None)
+        if out.exc is not None:
+            return
+        deco = out.value
+        r = v.interp.run(deco, (cls,), {}) if not v.concrete else None
+        if v.concrete:
+            return
+        v.check('decorating-a-class-never-fails-and-returns-the-class', r.exc is None and r.value is cls)
+        if r.exc is not None:
+            return
+        from falcon.constants import COMBINED_METHODS
+
+        name_ok = re.compile(r'^on_(%s)(_\w+)?$' % '|'.join(m.lower() for m in COMBINED_METHODS))
+        wrapped_names, untouched_ok, args_ok = [], True, True
+        for n, old in before.items():
+            new = inspect.getattr_static(cls, n) if n in vars(cls) else getattr(cls, n)
+            is_responder = callable(old) and name_ok.match(n) is not None
+            if is_responder:
+                ok = isinstance(new, tuple) and new[0] == 'wrapped' and new[1] == which
+                if ok:
+                    wrapped_names.append(n)
+                    args_ok = args_ok and new[2] is old and new[3] is action and tuple(new[4]) == (a1,) and dict(new[5]) == {'extra': k1}
+            else:
+                untouched_ok = untouched_ok and new is old
+        want = sorted(n for n, old in before.items() if callable(old) and name_ok.match(n) is not None)
+        v.check('every-responder-the-class-has-own-or-inherited-is-wrapped', sorted(wrapped_names) == want, wrapped=sorted(wrapped_names), want=want)
+        v.check('each-wrapper-wraps-the-original-responder-with-the-hook-and-its-arguments', args_ok)
+        v.check('nothing-but-responders-is-replaced', untouched_ok)
+        v.check('base-classes-are-left-untouched', [dict(vars(b)) for b in cls.__mro__[1:-1]] == bases_before)
+        v.cover('class-decorated')
+
+    return h
+
+
+for _w in ('before', 'after'):
+    harness(PROP, HOOKS + ':' + _w, name='class_level_%s' % _w, setup=_class_hooks_setup(_w))(_class_hook_harness(_w))
+
+
+KILLS += [
+    # class-level decoration only looks at the class's own namespace: inherited responders lose their hooks
+    ('falcon/hooks.py', "            for responder_name, responder in getmembers(\n                responder_or_resource, callable\n            ):\n                if _DECORABLE_METHOD_NAME.match(responder_name):\n                    responder = cast('Responder', responder)\n                    do_before_all",
+     "            for responder_name, responder in list(vars(responder_or_resource).items()):\n                if callable(responder) and _DECORABLE_METHOD_NAME.match(responder_name):\n                    responder = cast('Responder', responder)\n                    do_before_all",
+     'before#every-responder-the-class-has-own-or-inherited-is-wrapped'),
+    ('falcon/hooks.py', "                if _DECORABLE_METHOD_NAME.match(responder_name):\n                    responder = cast('Responder', responder)\n                    do_after_all",
+     "                if responder_name.startswith('on_'):\n                    responder = cast('Responder', responder)\n                    do_after_all",
+     'after#nothing-but-responders-is-replaced'),
+]
 KILLS += [
     ('falcon/hooks.py', "            sync_action(req, resp, self, kwargs, *action_args, **action_kwargs)\n            sync_responder(self, req, resp, **kwargs)\n",
      "            sync_responder(self, req, resp, **kwargs)\n            sync_action(req, resp, self, kwargs, *action_args, **action_kwargs)\n", '_wrap_with_before#first-step-runs-exactly-once-first'),
